@@ -304,10 +304,10 @@ def run(tier='quick', seed=0, nproc=16):
     shapes += gen.shuffled(dags.all_shapes(4, kinds='CL', max_slots=2))[:4000]
   jobs = [(s, False) for s in shapes] + [(s, True) for s in shapes if sum(k == 'C' for k, _ in s) >= 2]
   res = common.pmap(check_shape, gen.shuffled(jobs), nproc)
-  res.append(temporaries_scenario())
-  res.append(depth_scenario())
-  res.append(dropped_results_scenario())
-  res.append(partial_nodes_scenario())
+  res.append(common.guard(temporaries_scenario))
+  res.append(common.guard(depth_scenario))
+  res.append(common.guard(dropped_results_scenario))
+  res.append(common.guard(partial_nodes_scenario))
   return common.merge(
       res, 'layerb.prop_C02',
       rule='every DAG shape over Config/list/tuple/dict nodes with <=2 slots per node (all shapes '
